@@ -68,7 +68,7 @@ proof {
     assert(ops1[k] == ops0[k]);
     let cn = c.push(k);
     assert(rv@[c.len() as int]@ == group_between(ops0, ni, lo, k));
-    lemma_group_has_change(ops0, ni, lo, k);
+    lemma_c12_group_has_change(ops0, ni, lo, k);
     assert(pending_group@ == group_open(ops0, ni, k, k + 1));
     assert(cuts_upto(ops0, ni, cn, k + 1)) by {
         assert forall|i: int| 0 <= i < k + 1 && #[trigger] is_split(ops0, ni, i) implies cn.contains(i) by {
@@ -90,7 +90,7 @@ o.lines[i:i] = ghost('''
 proof {
     assert(pending_group@ == group_between(ops0, ni, lo, k));
     if has_change(ops0) {
-        lemma_group_has_change(ops0, ni, lo, k);
+        lemma_c12_group_has_change(ops0, ni, lo, k);
         let p = choose|p: int| 0 <= p < pending_group@.len() && !is_eq(#[trigger] pending_group@[p]);
     } else {
         assert(is_eq(ops0[0]));
